@@ -31,6 +31,9 @@ fn unmemo(g: &G) -> G {
 
 fn check_inner(sub: &str, gm: &G, toks: &[char], l: &mut Local) -> CaseRes {
     let case = || Case::new(ID, sub, gm, toks);
+    if too_expensive(gm, toks, 8_000, l) {
+        return Ok(());
+    }
     let g0 = unmemo(gm);
     let si = StrIn::new(toks);
     let s: &str = &si.s;
